@@ -139,6 +139,12 @@ PROGRAMS = {
               T("return"), T("n", True), T(";"), T("}")],
     "decl-after": [T("export"), T("function"), T("f"), T("("), T("int"), T("a", True), T(")"), T("->"), T("int"), T("{"), T("return"), T("a", True), T("+"), T("g1", True), T(";"), T("}"),
                    T("int"), T("g1", True), T(";"), T("struct"), T("SL"), T("{"), T("float"), T("lf", True), T(";"), T("}"), T("float[2]"), T("g2", True), T(";")],
+    # every spelling of a literal the lexer knows (suffix, exponent, bare fraction, hex with either prefix case, octal); a literal
+    # as the last token of a declaration, of an argument list and of a return
+    "literals": [T("export"), T("function"), T("f"), T("("), T("float"), T("x", True), T(")"), T("->"), T("float"), T("{"), T("float"), T("s", True), T("="), T("2.5f", True), T(";"),
+                 T("float"), T("u", True), T("="), T("x", True), T("*"), T("1e3", True), T("+"), T(".5", True), T("-"), T("3.", True), T("*"), T("1.5e-2f", True), T(";"),
+                 T("int"), T("k", True), T("="), T("0XaB", True), T("+"), T("017", True), T("+"), T("0", True), T(";"),
+                 T("return"), T("s", True), T("+"), T("u", True), T("*"), T("float"), T("("), T("k", True), T(")"), T("+"), T("0.25f", True), T(";"), T("}")],
     "short-decl": [T("export"), T("function"), T("f"), T("("), T("int"), T("a", True), T(")"), T("->"), T("int"), T("{"), T("int"), T("v", True), T("="), T("a", True), T(";"),
                    T("return"), T("v", True), T("++"), T(";"), T("}")],
     "short-loop": [T("export"), T("function"), T("f"), T("("), T("int"), T("n", True), T(")"), T("->"), T("int"), T("{"), T("for"), T("("), T("int"), T("i", True), T("="), T("0", True), T(";"),
